@@ -17,6 +17,7 @@ import (
 
 	"gopkg.in/yaml.v3"
 
+	"github.com/thushan/olla/internal/verifhook"
 	"github.com/thushan/olla/internal/zzverif"
 )
 
@@ -25,6 +26,7 @@ type verifProviderScn struct {
 	Types  map[string]string `json:"types"`
 	H      []string          `json:"H"`
 	Refuse []string          `json:"refuse"` // healthy when the request arrives, but their listener is closed
+	Flip   []string          `json:"flip"`   // endpoints that turn unhealthy while olla re-lists the backends for this request
 	Strat  string            `json:"strat"`  // "plain" | "disc_all" (discovery strategy, fallback all, refresh on miss; unknown model)
 	Drop   []string          `json:"drop"`   // endpoints that re-list WITHOUT the shared model m1 after boot (through a recovery)
 }
@@ -89,7 +91,18 @@ func verifAllowedTypes(prefix string) []string {
 }
 
 // TestVerif_Provider: provider-scoped routes against mixes of endpoint types.
+// what to do when the routing strategy is about to refresh for a given model name (hook point routing.refresh)
+var verifProviderFlips sync.Map
+
 func TestVerif_Provider(t *testing.T) {
+	verifhook.Set(func(name, key string) {
+		if name == "routing.refresh" {
+			if f, ok := verifProviderFlips.Load(key); ok {
+				f.(func())()
+			}
+		}
+	})
+	defer verifhook.Set(nil)
 	tr := zzverif.OpenTrace()
 	defer tr.Close()
 	scns := zzverif.LoadScenarios()
@@ -214,11 +227,28 @@ func TestVerif_Provider(t *testing.T) {
 				be.SetDown(true)
 			}
 		}
+		if len(sc.Flip) > 0 {
+			// the gate (hook point routing.refresh, keyed by the model the request names): between the handler's read of
+			// the healthy set and the routing strategy's own re-read the endpoints in Flip are probed unhealthy
+			var once sync.Once
+			verifProviderFlips.Store(fmt.Sprintf("mx-unlisted-%d", sn), func() {
+				once.Do(func() {
+					for _, o := range stk.backends {
+						if verifHas(sc.Flip, o.Name) {
+							o.HealthStatus.Store(503)
+						}
+					}
+					stk.healthRound()
+					emit("Flip", "flip", append([]string{}, sc.Flip...), "st", stk.statuses())
+				})
+			})
+			defer verifProviderFlips.Delete(fmt.Sprintf("mx-unlisted-%d", sn))
+		}
 		emit("ClientSend")
 		// no model named: this check is about endpoint KIND, model routing is C09's business
 		body := fmt.Sprintf(`{"messages":[{"role":"user","content":"p%d"}]}`, sn)
 		if sc.Strat == "disc_all" {
-			body = fmt.Sprintf(`{"model":"mx-unlisted","messages":[{"role":"user","content":"p%d"}]}`, sn)
+			body = fmt.Sprintf(`{"model":"mx-unlisted-%d","messages":[{"role":"user","content":"p%d"}]}`, sn, sn)
 		}
 		res := zzverif.Do(stk.addr, &zzverif.Req{Method: "POST", Target: "/olla/" + sc.Prefix + "/v1/chat/completions",
 			Headers: []string{"Content-Type: application/json", fmt.Sprintf("X-Verif-Req: p%d", sn)}, Body: []byte(body), Timeout: 20 * time.Second})
